@@ -18,10 +18,12 @@ class C20(Check):
     assumptions = ["the required outcome of each attempt is decided by TLC from the logged raw arguments (RejectTrace.tla follows the Accept/Reject action pairs of Reject.tla)",
                    "for the multidimensional constructor the property names no exception type: any exception is accepted there",
                    "'container exactly as it was' is compared on the full private layout (levels, used_levels, index sizes) read through the friend accessor"]
-    rule = ("the violation is placed at every position: reserved key as the last 1..3 elements of arrays of length 1..7 for 10 key types x 5 static classes + the C create functions; "
-            "bases 2..255; an unsorted adjacent pair at each position of bulk loads of length 2..7; the reserved mapped value at every step of 6 short histories; "
+    rule = ("the violation is placed at every position: reserved key as the last 1..3 elements of arrays of length 1..7, 33, 300 and 40000 (chunked build) for 10 key types x 7 static classes "
+            "(PGMIndex, one-level, Compressed, Bucketing, EliasFano, Mapped from a range and from a raw file) + the C create functions; "
+            "every base 2..255; an unsorted adjacent pair at each position of bulk loads of length 2..7 and at the ends / random positions of loads of 12..700 entries; "
+            "the reserved mapped value at each position of bulk loads and at every step of 6 short histories; "
             "every (lo,hi) in 0..5 x 0..5 for range(); coordinates of fieldbits-3..fieldbits+2 bits at each position and dimension; epsilon -3..3; "
-            "a non-increasing key at each position of a run; valid controls are interleaved")
+            "a non-increasing key at each position of a collinear run and of zigzag runs that break into several segments; valid controls are interleaved")
 
     @property
     def builds(self):
